@@ -15,6 +15,7 @@ patches for inspection.
 """
 import ast
 import concurrent.futures as cf
+import glob
 import hashlib
 import json
 import os
@@ -323,18 +324,46 @@ def recheck_one(r):
         shutil.rmtree(tmp, ignore_errors=True)
 
 
+def anchored():
+    m = {}
+    for l in open(os.path.join(HERE, "properties.jsonl")):
+        d = json.loads(l)
+        for f in (d.get("anchors") or {}).get("files", []):
+            m.setdefault(f, set()).add(d["id"])
+    return m
+
+
 def cmd_recheck(argv):
+    """survivors (patch files) x the checks that execute the line AND are anchored in the file, minus those already run"""
     j = int(argv[argv.index("-j") + 1]) if "-j" in argv else 4
-    rp = os.path.join(OUT, "results.jsonl")
-    rs = [json.loads(l) for l in open(rp)]
-    todo = [r for r in rs if r["status"] == "survived" and any(c not in r.get("rcs", {}) for c in r["checks"])]
-    print(len(todo), "survivors with covering checks not yet run", flush=True)
-    with cf.ThreadPoolExecutor(j) as ex:
+    sites = {s["id"]: s for s in json.load(open(os.path.join(OUT, "sites.json")))}
+    anch = anchored()
+    out_p = os.path.join(OUT, "recheck.jsonl")
+    prev = {}
+    for fn in ("results.jsonl", "recheck.jsonl"):
+        if os.path.exists(os.path.join(OUT, fn)):
+            for l in open(os.path.join(OUT, fn)):
+                r = json.loads(l)
+                prev.setdefault(r["id"], {}).update(r.get("rcs", {}))
+    todo = []
+    for f in sorted(glob.glob(os.path.join(OUT, "survivors", "*.patch"))):
+        sid = os.path.basename(f)[:-6]
+        s = sites.get(sid)
+        if not s:
+            continue
+        if any(rc in (1, 124) for rc in prev.get(sid, {}).values()):
+            continue
+        want = [c for c in s["checks"] if c in anch.get(s["file"], set())]
+        r = dict(id=sid, file=s["file"], line=s["line"], kind=s["kind"], old=s["old"][:120], new=s["new"][:120], checks=want,
+                 rcs=dict(prev.get(sid, {})), status="survived")
+        if any(c not in r["rcs"] for c in want):
+            todo.append(r)
+    print(len(todo), "survivors with anchored covering checks not yet run", flush=True)
+    with cf.ThreadPoolExecutor(j) as ex, open(out_p, "a") as out:
         for r in ex.map(recheck_one, todo):
+            out.write(json.dumps(r) + "\n")
+            out.flush()
             print("%-9s %s %s:%d %s" % (r["status"], r["id"], r["file"], r["line"], r.get("rcs")), flush=True)
-    with open(rp, "w") as f:
-        for r in rs:
-            f.write(json.dumps(r) + "\n")
 
 
 if __name__ == "__main__":
